@@ -218,6 +218,8 @@ func indexIngest(repo Repo, index *types.Index, conf config.Config, locked bool)
 					types.AnnotReferrerSubject: refSubj.String(),
 				}
 				index.AddDesc(newDesc)
+				// a response generated below for the same subject (from an entry filed under another tag) extends this one
+				referrerResponse[refSubj.String()] = newDesc
 				mod = true
 			}
 			// if the response cannot be quickly converted, save for later
